@@ -36,15 +36,18 @@ impl<T> Entry<T> {
     /// get the internal data mut ref
     /// # Safety
     ///
-    /// must make sure it's not popped by the consumer
+    /// must not race with the consumer popping the entry; if the entry
+    /// is already popped `f` is not called
     #[inline]
     pub unsafe fn with_mut_data<F>(&self, f: F)
     where
         F: FnOnce(&mut T),
     {
         let node = &mut *self.0.as_ptr();
-        let data = node.value.as_mut().expect("Node value is None");
-        f(data);
+        // the consumer may have popped the entry already, then there is nothing to modify
+        if let Some(data) = node.value.as_mut() {
+            f(data);
+        }
     }
 
     /// judge if the node is still linked in the list
